@@ -67,6 +67,8 @@ type Profile struct {
 	Avoid map[string]string
 	// Stratified selects each message's codec feature and variant by sequence number instead of drawing it.
 	Stratified bool
+	// MockShape shapes response types for generate_mock=true (see mock.go).
+	MockShape bool
 	// DupShortNames lets nested messages of different parents share a short name.
 	DupShortNames bool
 }
@@ -211,6 +213,9 @@ func Generate(t *rapid.T, p *Profile, id string) *Schema {
 	usedSvc := map[string]bool{}
 	for i := 0; i < ns; i++ {
 		g.newService(main, usedSvc, ns == 1)
+	}
+	if p.MockShape {
+		g.mockShape()
 	}
 	g.splitFiles(main)
 	for k := range g.tag {
